@@ -473,6 +473,17 @@ def run(ctx):
                     continue        # arithmetic on NULL gives NULL
                 if got != ('val', ('b', True)):
                     ctx.violation("oracle", f"`{src}` gives {got}: concatenating a string with a value must use the value's text", {"op": "expr", "src": src})
+            # … and that text is the literal of the value: what follows the prefix reads back as an equal value of the same type
+            if v not in ("NULL", "date('20200229')"):
+                r = impl.run(f"'x=' + ({v})")[0][:2]
+                ctx.count("string_concatenations")
+                if r[0] != 'val' or r[1][0] != 's' or not r[1][1].startswith("x="):
+                    ctx.violation("oracle", f"`'x=' + ({v})` gives {r}", {"op": "expr", "src": f"'x=' + ({v})"})
+                else:
+                    txt = r[1][1][2:]
+                    back = impl.run(f"({txt}) == ({v}) and type({txt}) == type({v})")[0][:2]
+                    if back != ('val', ('b', True)):
+                        ctx.violation("oracle", f"`'x=' + ({v})` gives 'x={txt}', and `{txt}` does not read back as that value ({back})", {"op": "expr", "src": f"'x=' + ({v})"})
         # ---------------- model evaluator and model front end
         if ctx.build.ok:
             resp = core.run_driver(reqs)
